@@ -48,6 +48,9 @@ class C04(Hist1Prop):
                    "implementation's own edges"]
 
     def gen_case(self, rng, k, tier):
+        if rng.random() < 0.3:
+            from . import nd_parts
+            return nd_parts.c04_gen(rng)
         w = rng.choice(WIDTHS)
         kw = {"align": True, "shift": 0.0}
         if rng.random() < 0.25:
@@ -105,6 +108,10 @@ class C04(Hist1Prop):
         return {"kind": "hist1", "fuel": 64, "ops": ops, "tags": [], "src": src}
 
     def shrink_candidates(self, case):
+        if case.get("kind") == "histn":
+            from . import nd_parts
+            yield from nd_parts.c04_shrink(case)
+            return
         src = case["src"]
         for i in range(len(src["steps"]) - 1, -1, -1):
             s2 = copy.deepcopy(src)
@@ -120,6 +127,9 @@ class C04(Hist1Prop):
                     yield self.build(s2)
 
     def oracle(self, case, io):
+        if case.get("kind") == "histn":
+            from . import nd_parts
+            return nd_parts.c04_oracle(case, io)
         outs, ops = io["outs"], case["ops"]
         fails = []
         if any(o["ret"] == "REFUSED" for o in outs):
@@ -186,11 +196,15 @@ class C04(Hist1Prop):
         return fails[:6]
 
     def nontrivial(self, case, io):
+        if case.get("kind") == "histn":
+            return len({tuple(o["regs"][0]["shape"]) for o in io["outs"] if o["regs"] and o["regs"][0]}) >= 3
         sizes = {len(o["regs"][0]["bins"]) for o in io["outs"] if o["regs"] and o["regs"][0]}
         return len(sizes) >= 3
 
     def tags(self, case, io):
         t = super().tags(case, io)
+        if case.get("kind") == "histn":
+            return t
         t.append("width:" + str(float(Fraction(case["src"]["w"]))))
         t.append("bins_final:" + str(min(len(io["outs"][-1]["regs"][0]["bins"]) // 100 * 100, 2000)))
         return t
